@@ -22,7 +22,7 @@ PROPS["C06"] = {
         "RCE.Props.C06.pawn_attacks_exact",
     ],
     "streams": {
-        "quick": [{"name": "tables-relevant", "stream": "tables", "driver": "tables", "args": ["--mode", "relevant", "--count", 20000]}],
+        "quick": [{"name": "tables-relevant", "stream": "tables", "driver": "tables", "args": ["--mode", "relevant", "--count", 20000]}, WALK_Q],
         "thorough": [{"name": "tables-lines", "stream": "tables", "driver": "tables", "args": ["--mode", "lines", "--count", 400000]},
                      {"name": "tables-relevant", "stream": "tables", "driver": "tables", "args": ["--mode", "relevant", "--count", 1000]}],
     },
@@ -79,8 +79,8 @@ PROPS["C04"] = {
     "module": "RCE.Props.C04",
     "theorems": ["RCE.Props.C04.key_incremental", "RCE.Props.C04.scratchKey_position_only", "RCE.Props.C04.transposition_same_key",
                  "RCE.Props.C04.fromFen_key", "RCE.Props.C04.start_ok", "RCE.Props.C04.key_ok_run"],
-    "streams": {"quick": [WALK_Q], "thorough": [WALK_T]},
-    "rule": WALK_RULE + "; for C04 the incremental key, the from-scratch key and the key of the FEN reload of the same position are compared after every make and "
+    "streams": {"quick": [WALK_Q, FEN_Q], "thorough": [WALK_T, FEN_T]},
+    "rule": WALK_RULE + "; plus the generated FEN family (counters varied independently of the position, moves played from every loaded position); for C04 the incremental key, the from-scratch key and the key of the FEN reload of the same position are compared after every make and "
             "every unmake, and all explored keys are grouped by position identity (same identity must give the same key, across games and transpositions)",
     "assumptions": [],
 }
@@ -100,6 +100,8 @@ SO_Q = dict(S("search-off", "off", 100, 3), driver="search:6")
 SB_Q = S("search-budget", "budget", 32, 2, extra=["--step", 1, "--maxcases", 120])
 SS_Q = S("search-stop", "stop", 32, 2, extra=["--step", 3, "--maxcases", 120])
 SK_Q = S("search-keep", "keep", 64, 3)
+SR_Q = S("search-retro", "retro", 320, 3)    # backward analysis: the forced move into a mate-in-one searched first, then its predecessor with the cache kept
+SR_T = S("search-retro", "retro", 4000, 3)
 SB3_Q = S("search-budget3", "budget", 48, 3, extra=["--step", 1, "--maxcases", 60])   # interruptions inside iteration 3: a partial iteration that already improved on iteration 2
 SC_Q = S("search-clock", "clock", 32, 2, extra=["--maxcases", 100])
 SC_T = S("search-clock", "clock", 160, 3, extra=["--maxcases", 1200])
@@ -112,8 +114,8 @@ SK_T = S("search-keep", "keep", 400, 4)
 PROPS["C14"] = {
     "module": "RCE.Props.C14chess",
     "theorems": ["RCE.Props.C14.info_depths", "RCE.Props.C14.depth_limit_complete", "RCE.Props.C14.pv_legal", "RCE.Props.C14.pv_nonempty", "RCE.Props.C14.info_score_present", "RCE.Props.C14.chess_pv_legal_by_the_rules", "RCE.Props.C14.chess_pv_nonempty"],
-    "streams": {"quick": [SP_Q, S("search-budget", "budget", 16, 2, extra=["--step", 7, "--maxcases", 40]), S("search-game", "game", 48, 4, extra=["--plies", 8])],
-                "thorough": [SP_T, S("search-budget", "budget", 64, 3, extra=["--step", 11, "--maxcases", 300]), SK_T, S("search-game", "game", 400, 5, extra=["--plies", 12]),
+    "streams": {"quick": [SP_Q, S("search-budget", "budget", 16, 2, extra=["--step", 7, "--maxcases", 40]), S("search-game", "game", 48, 4, extra=["--plies", 8]), SR_Q],
+                "thorough": [SP_T, S("search-budget", "budget", 64, 3, extra=["--step", 11, "--maxcases", 300]), SK_T, S("search-game", "game", 400, 5, extra=["--plies", 12]), SR_T,
                              {"name": "search-benchkeep", "stream": "search", "driver": "search:0", "args": ["--mode", "file", "--cases", "work/bench_keep_cases.txt"]}]},
     "eval_key": "cases", "distinct_key": "distinct_cases",
     "rule": SEARCH_RULE + "; for C14: every info line is checked against the UCI token grammar, depths must be 1,2,3,... in order, every PV is replayed move by move "
@@ -137,13 +139,14 @@ PROPS["C13"] = {
 PROPS["C11"] = {
     "module": "RCE.Props.C11",
     "theorems": ["RCE.Props.C11.ab_eq_negamax", "RCE.Props.C11.ref_root_value_eq", "RCE.Props.C11.ref_root_move_value_eq"],
-    "streams": {"quick": [SO_Q, dict(S("search-mateoff", "mateoff", 160, 4), driver="search:0"), dict(S("search-promo", "promo", 1000, 3), driver="search:0")],
-                "thorough": [SO_T, dict(S("search-mateoff", "mateoff", 1600, 4), driver="search:0"), dict(S("search-promo", "promo", 6000, 3), driver="search:0")]},
+    "streams": {"quick": [SO_Q, dict(S("search-mateoff", "mateoff", 160, 4), driver="search:0"), dict(S("search-promo", "promo", 1000, 3), driver="search:0"), WALK_Q],
+                "thorough": [SO_T, dict(S("search-mateoff", "mateoff", 1600, 4), driver="search:0"), dict(S("search-promo", "promo", 6000, 3), driver="search:0"), WALK_T]},
     "eval_key": "cases", "distinct_key": "distinct_cases",
     "rule": SEARCH_RULE + "; for C11: cache neutralised by the hook, no limits; the root score read from info.best_score and the value of the chosen move are compared with a reference "
             "minimax (textbook fail-soft alpha-beta, no ordering heuristics beyond a static capture sort, no cache, no null windows) over the model's game, and for small depths with the "
             "same reference over the independent rules spec (own evaluation, own repetition record); extra position families: mate-rich mined positions, and promotion-rich unbalanced positions "
-            "(far-advanced pawns next to capturable pieces: capture-promotions inside quiescence)",
+            "(far-advanced pawns next to capturable pieces: capture-promotions inside quiescence); the walk stream compares the move orderer's output with the model's on every explored position "
+            "(cache move and killers picked from the list; every generated move must be handed out exactly once — crowded positions with up to 219 moves included)",
     "assumptions": ["EvalBoundedFrom: evaluations in the tree are within +-32511 (true for any position with realistic material)"],
 }
 
@@ -167,7 +170,7 @@ PROPS["C09"] = {
     "theorems": ["RCE.Props.C09.one_legal_bestmove", "RCE.Props.C09.ply_restored", "RCE.Props.C09.chess_bestmove_legal_by_the_rules",
                  "RCE.Props.C09.chess_eval_bounded", "RCE.Props.C09.chess_go_answers_a_legal_move",
                  "RCE.Props.C09.allowance_within_own_clock", "RCE.Props.C09.clock_expiry_noticed"],
-    "streams": {"quick": [SP_Q, SB_Q, SS_Q, SC_Q, SB3_Q, S("search-kb", "kb", 96, 3)], "thorough": [SP_T, SB_T, SS_T, SC_T, S("search-kb", "kb", 800, 4)]},
+    "streams": {"quick": [SP_Q, SB_Q, SS_Q, SC_Q, SB3_Q, S("search-kb", "kb", 96, 3), SR_Q], "thorough": [SP_T, SB_T, SS_T, SC_T, S("search-kb", "kb", 800, 4), SR_T]},
     "eval_key": "cases", "distinct_key": "distinct_cases",
     "rule": SEARCH_RULE + "; for C09: exactly one bestmove line per search, the move must be legal in the rules spec's position, no panic of the search, under every node budget and stop point "
             "(incl. budgets 1 and 2 where the first iteration is interrupted and the fallback move is used); the process-level part drives the real binary with limit mixes "
